@@ -20,6 +20,38 @@ def env_first(method):
     return 10.0 * ENV['derivative'][method]['1']['default']
 
 
+VIEWS = dict(id=lambda x: x, rev=lambda x: x[::-1], slice=lambda x: x[1:3], reshape=lambda x: x.reshape(2, -1))
+
+
+def view_exact(kind, n):
+    """Jacobian of the affine maps that return a VIEW of their argument (no new array is built)"""
+    I = np.eye(n)
+    if kind == 'id':
+        return I
+    if kind == 'rev':
+        return I[::-1]
+    if kind == 'slice':
+        return I[1:3]
+    out = np.zeros((2, n, n // 2))
+    for i in range(2):
+        for l in range(n // 2):
+            out[i, i * (n // 2) + l, l] = 1.0
+    return out
+
+
+def run_view(case):
+    vlib.use_repo()
+    import numdifftools as nd
+    kind, n, method, order = case
+    x0 = np.array(multi.X0[:n])
+    keep = x0.copy()
+    try:
+        val = nd.Jacobian(VIEWS[kind], method=method, order=order)(x0)
+    except Exception as ex:
+        return ('raise', '%s: %s' % (type(ex).__name__, str(ex)[:160]))
+    return ('ok', np.asarray(val).tolist(), list(np.shape(val)), bool(np.array_equal(x0, keep)))
+
+
 def run_case(case):
     vlib.use_repo()
     import numdifftools as nd
@@ -37,10 +69,14 @@ def run_case(case):
             f = multi.vector_fun(rec, x0)
             val = nd.Jacobian(f, method=method, order=order)(list(x0))
             return ('ok', np.asarray(val).tolist(), list(np.shape(val)))
-        if mode in ('grad', 'grad2d'):
+        if mode in ('grad', 'grad2d', 'grad2dF', 'grad2dT'):
             F = multi.comp_fun(rec['comps'][0], x0)
-            if mode == 'grad2d' and n % 2 == 0 and n > 1:
+            if mode != 'grad' and n % 2 == 0 and n > 1:
                 xx = np.array(x0).reshape(2, n // 2)
+                if mode == 'grad2dF':          # same logical array, Fortran memory order
+                    xx = np.asfortranarray(xx)
+                elif mode == 'grad2dT':        # same logical array, a transposed view
+                    xx = np.ascontiguousarray(xx.T).T
                 val, info = nd.Gradient(lambda z: F(np.ravel(z)) if not hasattr(z, 'z1') else F(z), method=method, order=order, full_output=True)(xx)
             else:
                 val, info = nd.Gradient(F, method=method, order=order, full_output=True)(np.array(x0) if n > 1 else x0[0])
@@ -91,7 +127,8 @@ def run(tier, rep):
                 for method in METHODS:
                     cases.append((ri, method, rnd.choice([2, 4]), 'grad'))
                     cases.append((ri, method, 2, 'dirdiff'))
-                cases.append((ri, rnd.choice(METHODS), 2, 'grad2d'))
+                for md in ('grad2d', 'grad2dF', 'grad2dT'):
+                    cases.append((ri, rnd.choice(METHODS), 2, md))
         else:
             if rec['n'] in (2, 3):
                 for method in ('central', 'forward', 'backward'):
@@ -125,7 +162,7 @@ def run(tier, rep):
                 idx = np.unravel_index(int(np.argmax(err)), err.shape)
                 rep.violation('entry:jac:%s' % ('affine' if affine else 'smooth'), dict(case=name, index=list(map(int, idx)), got=float(np.array(o[1])[idx]), want=float(want[idx])),
                               '%s: entry %s is %r, exact partial derivative %r (tolerance %.2g)' % (name, list(map(int, idx)), float(np.array(o[1])[idx]), float(want[idx]), tol))
-        elif mode in ('grad', 'grad2d'):
+        elif mode in ('grad', 'grad2d', 'grad2dF', 'grad2dT'):
             want = np.array(multi.vec(rec['grads'][0]))
             wshape = [] if n == 1 else [n]
             if o[2] != wshape:
@@ -150,8 +187,24 @@ def run(tier, rep):
             err = np.abs(np.array(o[1]) - want)
             if not (err <= 1e-4 * sc).all():
                 rep.violation('entry:nested', dict(case=name, got=o[1], want=want.tolist()), '%s: Jacobian of a function that calls Gradient is %s, exact Hessian %s' % (name, o[1], want.tolist()))
+    # affine maps that return a view of their argument (identity, reversal, slice, reshape to a matrix)
+    vcases = [(kind, n, method, order) for kind in VIEWS for n in (1, 2, 3, 4, 5, 8) for method in METHODS for order in (2, 4)
+              if not (kind == 'slice' and n < 3) and not (kind == 'reshape' and (n % 2 or method == 'multicomplex'))]
+    for (kind, n, method, order), o in zip(vcases, vlib.pool_map(run_view, vcases, chunksize=8)):
+        name = 'view:%s n=%d | %s order=%d' % (kind, n, method, order)
+        if o[0] == 'raise':
+            rep.violation('raises:view:' + method, dict(case=name), '%s raised %s' % (name, o[1]))
+            continue
+        nchk += 1
+        want = view_exact(kind, n)
+        if o[2] != list(want.shape):
+            rep.violation('shape:view', dict(case=name, got=o[2], want=list(want.shape)), '%s: result shape %s, the property demands %s' % (name, o[2], list(want.shape)))
+        elif not (np.abs(np.array(o[1]) - want) <= 1e-9 * 100.0).all():
+            rep.violation('entry:view:' + kind, dict(case=name, got=o[1], want=want.tolist()), '%s: Jacobian of an affine map that returns a view of its argument is %s, exact %s' % (name, np.round(o[1], 6).tolist(), want.tolist()))
+        elif not o[3]:
+            rep.violation('x-modified:view', dict(case=name), '%s: the caller\'s x was modified' % name)
     states, trans, per = vlib.merge_tlc([res])
-    cov = dict(states=states, transitions=trans, traces_validated_against_impl=nchk, exhaustive=tier != 'quick',
+    cov = dict(view_cases=len(vcases), states=states, transitions=trans, traces_validated_against_impl=nchk, exhaustive=tier != 'quick',
                samples=[{k: v for k, v in RECS[5].items() if k != 'comps'}], evaluations=nchk,
                distinct_nontrivial=len({(c[0], c[1], c[3]) for c in cases if RECS[c[0]]['kind'] != 'affine'}),
                rule='TLC: n x m x k shapes (quick n in {1,2,3,5,8}, m in {1,2,3,6}, k in {0,1,2,4}) x 4 function kinds x 2 patterns; replay over methods/orders; non-trivial = non-affine',
